@@ -130,6 +130,11 @@ def check_collect(ctx, model, crate, p, ledger, vault=False, rule="C07-F3"):
     if not saves:
         ctx.missing(rule, "%s reset in %s" % (ledger, p))
         return
+    # the ledger is written back on every path to a successful return (an early `return Ok(..)` carrying transfers that
+    # were already queued would pay them out and leave them owed)
+    oks = ok_value_blocks(v)
+    saved = bool(oks) and any(must_pass_through(v, sb, oks) for sb, _ in saves)
+    ctx.ob(rule, "%s|ledger-saved-on-every-success-path" % p, saved, "%s write lies on every path to a successful return: %s" % (ledger.split("::")[-1], saved), v.where(saves[0][0]))
     # transfers
     xfers = v.calls_to(r"Asset::into_msg$")
     if not xfers:
